@@ -395,7 +395,7 @@ func init() {
 			}
 			return smallScopeCases(3, 5) + 600
 		},
-		PerCaseTimeoutS: 120,
+		PerCaseTimeoutS: 480, // exhaustive order spaces: up to 400 runs per case, on a machine shared with other jobs a case has taken more than two minutes
 		Run: func(seed uint64, idx int, tier string) *fw.Result {
 			maxN, ns := 3, 5 // quick: scripts with at most 2 attempts, every order space is exhausted
 			if tier == "thorough" {
